@@ -115,10 +115,12 @@ func runLib(full []string, names []string, doc string) (check verdict, val verdi
 			}()
 		}
 	}()
+	tm := time.NewTimer(20 * time.Second)
+	defer tm.Stop()
 	select {
 	case r := <-ch:
 		return r.c, r.v
-	case <-time.After(20 * time.Second):
+	case <-tm.C:
 		return verdict{timeout: true}, verdict{}
 	}
 }
